@@ -64,7 +64,7 @@ type fail struct {
 }
 
 type stats struct {
-	prefix, full, perm, trim, fed, stat, order int64
+	prefix, full, perm, trim, fed, stat, order, parts int64
 }
 
 // env carries what the runners need from the context without touching it in hot loops.
@@ -1011,6 +1011,25 @@ func runAccum(cs *Case, samples []string, st *stats) *fail {
 			continue
 		}
 		st.full++
+		// the schema accessors the reduce renderer and CSV writer read
+		if gc := agg.GroupCols(); len(gc) != len(cs.Acc.Groups) || agg.GroupColCount() != len(cs.Acc.Groups) {
+			return wrap(&fail{class: "schema", msg: fmt.Sprintf("GroupCols()=%q GroupColCount()=%d, %d groups were defined", gc, agg.GroupColCount(), len(cs.Acc.Groups))})
+		} else {
+			for i, n := range gc {
+				if n != "g"+strconv.Itoa(i) {
+					return wrap(&fail{class: "schema", msg: fmt.Sprintf("GroupCols()=%q, group %d was named g%d", gc, i, i)})
+				}
+			}
+		}
+		if dc := agg.DataCols(); len(dc) != len(cs.Acc.Cols) || agg.ColCount() != len(cs.Acc.Groups)+len(cs.Acc.Cols) {
+			return wrap(&fail{class: "schema", msg: fmt.Sprintf("DataCols()=%q ColCount()=%d, defined: %d groups + %d data columns", dc, agg.ColCount(), len(cs.Acc.Groups), len(cs.Acc.Cols))})
+		} else {
+			for i, n := range dc {
+				if n != cs.Acc.Cols[i].Name {
+					return wrap(&fail{class: "schema", msg: fmt.Sprintf("DataCols()=%q, column %d was named %q", dc, i, cs.Acc.Cols[i].Name)})
+				}
+			}
+		}
 		groups := agg.Groups(sorting.ByName)
 		if len(groups) != len(ref.data) {
 			return wrap(&fail{class: "groups", msg: fmt.Sprintf("Groups() has %d entries, fold has %d groups", len(groups), len(ref.data))})
@@ -1028,6 +1047,17 @@ func runAccum(cs *Case, samples []string, st *stats) *fail {
 			if got := agg.Data(gk); !eqRow(got, want) {
 				return wrap(&fail{class: "data", msg: fmt.Sprintf("group %s: Data()=%q, fold gives %q", run.Q(string(gk)), got, want)})
 			}
+			if got := agg.DataNoCopy(gk); !eqRow(got, want) {
+				return wrap(&fail{class: "data", msg: fmt.Sprintf("group %s: DataNoCopy()=%q, fold gives %q", run.Q(string(gk)), got, want)})
+			}
+			// the parts of a group key are the group values it was built from (an empty key has no parts)
+			parts := gk.Parts()
+			// (a group value may itself contain the separator - {0} of a multi-field element - so the count is judged only
+			// when the key has exactly one separator per boundary between group expressions)
+			if strings.Join(parts, nul) != string(gk) || (strings.Count(string(gk), nul) == len(cs.Acc.Groups)-1 && string(gk) != "" && len(parts) != len(cs.Acc.Groups)) {
+				return wrap(&fail{class: "group-parts", msg: fmt.Sprintf("group %s: Parts()=%q for %d group expressions", run.Q(string(gk)), parts, len(cs.Acc.Groups))})
+			}
+			st.parts++
 		}
 	}
 	return nil
@@ -1068,6 +1098,7 @@ func (r *runner) flush() {
 	c.Count("samples_fed", r.st.fed)
 	c.Count("moment_comparisons", r.st.stat)
 	c.Count("order_statistic_comparisons", r.st.order)
+	c.Count("group_key_parts_checked", r.st.parts)
 	r.st = stats{}
 }
 
